@@ -2,7 +2,7 @@
    Do not edit by hand: the committed copy is only the result of the last run. *)
 From Coq Require Import List. Import ListNotations.
 
-(* back/common_types.hpp : HandledEnum, EventSourceEnum *)
+(* back/common_types.hpp : HandledEnum, EventSourceEnum ; backmp11/common_types.hpp *)
 Definition HANDLED_FALSE := 0.
 Definition HANDLED_TRUE := 1.
 Definition HANDLED_GUARD_REJECT := 2.
@@ -11,10 +11,9 @@ Definition SRC_DEFAULT := 0.
 Definition SRC_DIRECT := 1.
 Definition SRC_DEFERRED := 2.
 Definition SRC_MSG_QUEUE := 4.
-(* backmp11/common_types.hpp *)
 Definition handled_true_or_deferred := 5.
 
-(* active_state_switching_policies.hpp, tabulated by calling the four functions with (0,1):
+(* active_state_switching_policies.hpp, tabulated by calling the four functions of each policy with (0,1):
    rows: after_entry, after_transition_action, after_exit, before_transition
    columns: after_guard, after_exit, after_action, after_entry ; true = the function returned next_state *)
 Definition policy_table : list (list bool) :=
@@ -23,53 +22,54 @@ Definition policy_table : list (list bool) :=
     [false; true; true; true];
     [true; true; true; true] ].
 
-(* back::dispatch_table::chain_row::execute_helper tabulated with stub rows:
-   continue_after res = is the rest of the chain executed after a first row returning res *)
+(* chain_row::execute_helper of back and back11, instantiated with two stub rows and tabulated:
+   continue res = is the rest of the chain executed after a first row returning res;
+   merge res sub = the value returned when the rest returned sub *)
 Definition back_chain_continue : list bool := [true; false; true; true; false; true; true; true].
-(* merge res sub = value returned when the rest returned sub *)
 Definition back_chain_merge : list (list nat) :=
-  [ [0;1;2;3;4;5;6;7];
-    [0;1;2;3;4;5;6;7];
-    [2;1;2;3;4;5;6;7];
-    [0;1;2;3;4;5;6;7];
-    [0;1;2;3;4;5;6;7];
-    [0;1;2;3;4;5;6;7];
-    [0;1;2;3;4;5;6;7];
-    [0;1;2;3;4;5;6;7] ].
+  [ [0; 1; 2; 3; 4; 5; 6; 7];
+    [0; 1; 2; 3; 4; 5; 6; 7];
+    [2; 1; 2; 3; 4; 5; 6; 7];
+    [0; 1; 2; 3; 4; 5; 6; 7];
+    [0; 1; 2; 3; 4; 5; 6; 7];
+    [0; 1; 2; 3; 4; 5; 6; 7];
+    [0; 1; 2; 3; 4; 5; 6; 7];
+    [0; 1; 2; 3; 4; 5; 6; 7] ].
 Definition back11_chain_continue : list bool := [true; false; true; true; false; true; true; true].
 Definition back11_chain_merge : list (list nat) :=
-  [ [0;1;2;3;4;5;6;7];
-    [0;1;2;3;4;5;6;7];
-    [2;1;2;3;4;5;6;7];
-    [0;1;2;3;4;5;6;7];
-    [0;1;2;3;4;5;6;7];
-    [0;1;2;3;4;5;6;7];
-    [0;1;2;3;4;5;6;7];
-    [0;1;2;3;4;5;6;7] ].
-(* back favor_compile_time chain_row::operator(): loop continues while continue res; step res handled *)
+  [ [0; 1; 2; 3; 4; 5; 6; 7];
+    [0; 1; 2; 3; 4; 5; 6; 7];
+    [2; 1; 2; 3; 4; 5; 6; 7];
+    [0; 1; 2; 3; 4; 5; 6; 7];
+    [0; 1; 2; 3; 4; 5; 6; 7];
+    [0; 1; 2; 3; 4; 5; 6; 7];
+    [0; 1; 2; 3; 4; 5; 6; 7];
+    [0; 1; 2; 3; 4; 5; 6; 7] ].
+(* favor_compile_time chain_row::operator(): the loop runs while continue res; step res handled *)
 Definition fct_chain_continue : list bool := [true; false; true; true; false; true; true; true].
 Definition fct_chain_step : list (list nat) :=
-  [ [0;1;2;3;4;5;6;7];
-    [0;1;2;3;4;5;6;7];
-    [2;1;2;3;4;5;6;7];
-    [0;1;2;3;4;5;6;7];
-    [0;1;2;3;4;5;6;7];
-    [0;1;2;3;4;5;6;7];
-    [0;1;2;3;4;5;6;7];
-    [0;1;2;3;4;5;6;7] ].
-(* back process_fsm_internal_table: is the sm-internal cell tried when the regions returned res *)
+  [ [0; 1; 2; 3; 4; 5; 6; 7];
+    [0; 1; 2; 3; 4; 5; 6; 7];
+    [2; 1; 2; 3; 4; 5; 6; 7];
+    [0; 1; 2; 3; 4; 5; 6; 7];
+    [0; 1; 2; 3; 4; 5; 6; 7];
+    [0; 1; 2; 3; 4; 5; 6; 7];
+    [0; 1; 2; 3; 4; 5; 6; 7];
+    [0; 1; 2; 3; 4; 5; 6; 7] ].
+(* conditions cut out of the source and tabulated over the result codes 0..7 *)
+(* back process_fsm_internal_table:   result != HANDLED_TRUE *)
 Definition back_internal_tried : list bool := [true; false; true; true; true; true; true; true].
+(* back11 process_fsm_internal_table: result != ::boost::msm::back::HANDLED_TRUE *)
 Definition back11_internal_tried : list bool := [true; false; true; true; true; true; true; true].
-(* back do_handle_deferred: does a deferred event returning res count as "not only deferred" (stop + re-sort) *)
+(* back do_handle_deferred:           res != ::boost::msm::back::HANDLED_FALSE && res != ::boost::msm::back::HANDLED_DEFERRED *)
 Definition back_deferred_stops : list bool := [false; true; true; true; false; true; true; true].
-
-(* backmp11 transition_chain::execute: (accumulated result before, row result) -> (new result, stop) *)
+(* backmp11 transition_chain::execute with stub rows: stop acc / value returned when it stops *)
 Definition mp11_chain_stop : list bool := [false; true; false; true; true; true; true; true].
 Definition mp11_chain_mask : list nat := [0; 1; 2; 1; 4; 5; 4; 5].
-(* backmp11 do_process_event: is internal_dispatch tried when the regions returned res *)
+(* backmp11 do_process_event:         !(result & handled_true_or_deferred) *)
 Definition mp11_internal_tried : list bool := [true; false; true; false; false; false; false; false].
 
-(* sequence counters: width in bits, signedness (probed with sizeof / numeric_limits on the member types) *)
+(* sequence counters: width in bits and signedness of the member types m_cur_seq / cur_seq_cnt *)
 Definition back_seq_bits := 8.
 Definition back_seq_signed := true.
 Definition mp11_seq_bits := 16.
